@@ -67,6 +67,11 @@ theorem C19_wiring :
     Sso.Generated.skel_sso_signRedirectURL =
       ["call:?", "call:New", "call:?", "call:Write", "call:Unix", "call:Sprint", "call:?", "call:Write", "call:Sum", "call:EncodeToString", "return"] := by decide
 
+/-- Tie (T1): what the providers' `Revoke` send. -/
+theorem C19_skeleton_Revoke :
+    Sso.Generated.skel_google_Revoke = ["call:Set", "call:String", "call:googleRequest", "if{", "return", "}", "call:NewLogEntry", "call:WithUser", "call:Info", "return"] ∧
+    Sso.Generated.skel_okta_Revoke = ["call:Add", "call:Add", "call:Add", "call:Add", "call:String", "call:oktaRequest", "if{", "return", "}", "call:NewLogEntry", "call:WithUser", "call:Info", "return"] := by decide
+
 end Sso.AuthN
 
 namespace Sso.Proxy
